@@ -242,6 +242,14 @@ def report(ck, b, job, verdicts, label):
     if clause in seen:
       continue
     seen.add(clause)
+    if clause.startswith("alpha=0"):
+      # delta = 0: the iterate divides by an alpha that is exactly 0 in the model and ~1e-32 (squared SVD
+      # residue) in floating point.  C16 states the full-matrix equivalence only for delta > 0, so this is
+      # recorded as an observation outside the property, not as a violation.
+      obs = ck.cov.setdefault("observations_outside_property", {})
+      k = f"oco|{c['alg']}|{clause}"
+      obs[k] = obs.get(k, 0) + 1
+      continue
     ck.violation(f"oco|{c['alg']}|{clause}",
                  f"{label}: {c['alg']} d={c['d']} sketch_size={c['k']} delta={c['dN']}/{c['dD']} "
                  f"lr={c['lrN']}/{c['lrD']}: {detail}",
@@ -358,7 +366,7 @@ def run(ck):
     auxs.append(a)
   res = core.run_workers(WORKER, jobs, x64=True, work=ck.work)
   worst = {}
-  stats = {"deflating_steps": 0, "lossless_sada_steps": 0, "tie_steps": 0}
+  stats = {"deflating_steps": 0, "lossless_sada_steps": 0}
   for b, j, a, r in zip(lattice, jobs, auxs, res):
     c = b["cfg"]
     v = judge_lattice(b, j, a, r, worst)
